@@ -72,6 +72,10 @@ static void do_str(char *hex)
 	printf(" kind=");
 	for (i = 0; i <= len; i++)
 		printf("%d,", uc_kind(s + i));
+	printf(" cls=");	/* isspace | isprint << 1 | isalpha << 2 | isdigit << 3 */
+	for (i = 0; i <= len; i++)
+		printf("%d,", (uc_isspace(s + i) != 0) | (uc_isprint(s + i) != 0) << 1 |
+				(uc_isalpha(s + i) != 0) << 2 | (uc_isdigit(s + i) != 0) << 3);
 	printf(" sub=");
 	if (n <= 6)
 		for (b = -1; b <= n; b++)
